@@ -29,7 +29,7 @@ pub fn def() -> PropDef {
     PropDef {
         id: "C09",
         level: "exploration",
-        rule: "(A) every frame (Init / Sync / Abort) of every session transcript between all ordered pairs of small reachable states: encode with the crate's codec, concatenate the whole session, feed the decoder with every split into two chunks and (transcripts <= 300 bytes in quick, <= 800 bytes in thorough) every split into three chunks, every truncation, length prefixes MAX / MAX+1 / u32::MAX, and encode several frames into one shared buffer; (B) every decoder (frame, SignedEntry, ProtocolMessage, AuthorHeads, DocTicket bytes and string form, Capability::from_raw over all 256 kinds, FilterKind::from_str, DownloadPolicy, the hex text form of Author / NamespaceSecret / AuthorId / NamespaceId / the two public-key types) on every byte string up to length 2 (3 in thorough) and on every single-byte replacement (position x 255 values; a 4-value subset beyond the first 48 bytes in the quick tier) of valid encodings, each call under catch_unwind; values that decode are exercised (accessors, signature verification, processing by a real replica); (C) pinned encodings: the suite's three hex snapshots and, for every entry of the universe, equality with an independent hand-written layout encoder; non-trivial = distinct inputs that decode successfully after a corruption, or chunkings that cut inside a frame",
+        rule: "(A) every frame (Init / Sync / Abort) of every session transcript between all ordered pairs of small reachable states: encode with the crate's codec, concatenate the whole session, feed the decoder with every split into two chunks and (transcripts <= 300 bytes in quick, <= 800 bytes in thorough) every split into three chunks, every truncation (also through the decoder's end-of-stream entry point: a stream ending inside a frame is an error, at a boundary a clean end), every frame's length prefix altered (shorter by 1 and 2, halved, 0, 1, longer by 1, longer by the next frame) with the following frames left behind it and every byte of the first frame replaced by 5 values — the stream decoder must do exactly what decoding the declared frames one by one in isolation does —, length prefixes MAX / MAX+1 / u32::MAX, and encode several frames into one shared buffer; (B) every decoder (frame, SignedEntry, ProtocolMessage, AuthorHeads, DocTicket bytes and string form, Capability::from_raw over all 256 kinds, FilterKind::from_str, DownloadPolicy, the hex text form of Author / NamespaceSecret / AuthorId / NamespaceId / the two public-key types) on every byte string up to length 2 (3 in thorough) and on every single-byte replacement (position x 255 values; a 4-value subset beyond the first 48 bytes in the quick tier) of valid encodings, each call under catch_unwind; values that decode are exercised (accessors, signature verification, processing by a real replica); (C) pinned encodings: the suite's three hex snapshots and, for every entry of the universe, equality with an independent hand-written layout encoder; non-trivial = distinct inputs that decode successfully after a corruption, or chunkings that cut inside a frame",
         assumptions: &[
             "\"arbitrary bytes\" is replaced by its exhaustive small-scope counterpart: all strings up to 3 bytes and all single-byte replacements of valid encodings",
         ],
@@ -166,6 +166,137 @@ fn check_transcript(frames: &[Frame], three_way_limit: usize) -> (Bad, u64, u64)
         }
     }
     (bad, evals, cuts_inside)
+}
+
+/// What the stream decoder must do, told independently: read the 4-byte big-endian length `L`,
+/// error if `L > MAX`, wait if fewer than `4 + L` bytes are there, else hand *exactly* those `L`
+/// bytes to the payload decoder (here: the crate's decoder on an isolated copy of that one frame,
+/// so it cannot look beyond it) and consume `4 + L` bytes. Returns the frames (re-encoded), whether
+/// decoding stopped with an error, and the number of bytes left.
+fn reference_stream(mut buf: &[u8]) -> (Vec<Vec<u8>>, bool, usize) {
+    let mut out = vec![];
+    loop {
+        if buf.len() < 4 {
+            return (out, false, buf.len());
+        }
+        let l = u32::from_be_bytes(buf[..4].try_into().unwrap()) as usize;
+        if l > verif_codec::MAX_MESSAGE_SIZE {
+            return (out, true, buf.len());
+        }
+        if buf.len() < 4 + l {
+            return (out, false, buf.len());
+        }
+        let mut one = BytesMut::from(&buf[..4 + l]);
+        match verif_codec::decode(&mut one) {
+            Ok(Some(f)) if one.is_empty() => out.push(encode(&f)),
+            _ => return (out, true, buf.len()),
+        }
+        buf = &buf[4 + l..];
+    }
+}
+
+fn sut_stream(bytes: &[u8]) -> (Vec<Vec<u8>>, bool, usize) {
+    let mut buf = BytesMut::from(bytes);
+    let mut out = vec![];
+    loop {
+        match verif_codec::decode(&mut buf) {
+            Ok(Some(f)) => out.push(encode(&f)),
+            Ok(None) => return (out, false, buf.len()),
+            Err(_) => return (out, true, buf.len()),
+        }
+    }
+}
+
+/// Streams whose length prefixes lie: every frame of the transcript gets its declared length
+/// altered (shorter by 1 and 2, halved, 0, 1, longer by 1, longer by the whole next frame) with
+/// the following frames left in place behind it, and every single byte of the first frame's
+/// payload area is replaced too (values 0, 1, 0x7f, 0x80, 0xff); the decoder run over the whole
+/// stream must do exactly what frame-by-frame decoding of the declared frames does. Then the end
+/// of the stream: after a truncation inside a frame, `decode_eof` must report an error (bytes
+/// remain that are no frame), after a truncation at a boundary it reports a clean end.
+fn check_framing(frames: &[Frame]) -> (Bad, u64) {
+    let mut bad: Bad = vec![];
+    let mut evals = 0u64;
+    let encs: Vec<Vec<u8>> = frames.iter().map(encode).collect();
+    let all: Vec<u8> = encs.concat();
+    let mut starts = vec![0usize];
+    for e in &encs {
+        starts.push(starts.last().unwrap() + e.len());
+    }
+    let mut try_stream = |bytes: &[u8], what: String, bad: &mut Bad| {
+        evals += 1;
+        match catch(|| (reference_stream(bytes), sut_stream(bytes))) {
+            Err(p) => bad.push(("no_panic", json!({"decoder": "frame stream"}), format!("{what}: panic {p}"))),
+            Ok((want, got)) => {
+                if want != got {
+                    bad.push((
+                        "stream_decoding_equals_frame_by_frame_decoding",
+                        json!({"frames_differ": want.0 != got.0, "error_differs": want.1 != got.1}),
+                        format!("{what}: the stream decoder returned {} frames (error: {}, {} bytes left), decoding the declared frames one by one gives {} frames (error: {}, {} bytes left)", got.0.len(), got.1, got.2, want.0.len(), want.1, want.2),
+                    ));
+                }
+            }
+        }
+    };
+    for (fi, e) in encs.iter().enumerate() {
+        let l = e.len() - 4;
+        let next = encs.get(fi + 1).map(|n| n.len()).unwrap_or(0);
+        let mut lens = vec![l.saturating_sub(1), l.saturating_sub(2), l / 2, 0, 1, l + 1];
+        if next > 0 {
+            lens.push(l + next);
+            lens.push(l + 4);
+        }
+        for nl in lens {
+            if nl == l {
+                continue;
+            }
+            let mut bytes = all.clone();
+            bytes[starts[fi]..starts[fi] + 4].copy_from_slice(&(nl as u32).to_be_bytes());
+            try_stream(&bytes, format!("frame {fi} of {} declares {nl} bytes instead of {l}", encs.len()), &mut bad);
+        }
+    }
+    if let Some(first) = encs.first() {
+        for pos in 4..first.len().min(120) {
+            for v in [0u8, 1, 0x7f, 0x80, 0xff] {
+                if all[pos] == v {
+                    continue;
+                }
+                let mut bytes = all.clone();
+                bytes[pos] = v;
+                try_stream(&bytes, format!("byte {pos} of the stream set to {v:#x}"), &mut bad);
+            }
+        }
+    }
+    // end of stream
+    for i in 0..=all.len() {
+        evals += 1;
+        let mut buf = BytesMut::from(&all[..i]);
+        let res = catch(|| {
+            let mut n = 0;
+            loop {
+                match verif_codec::decode_eof(&mut buf) {
+                    Ok(Some(_)) => n += 1,
+                    Ok(None) => return (n, false),
+                    Err(_) => return (n, true),
+                }
+            }
+        });
+        let complete = starts.iter().filter(|b| **b <= i && **b > 0).count();
+        let inside = !starts.contains(&i);
+        match res {
+            Err(p) => bad.push(("no_panic", json!({"decoder": "frame, end of stream"}), format!("stream ending at {i}: panic {p}"))),
+            Ok((n, err)) => {
+                if n != complete || err != inside {
+                    bad.push((
+                        "stream_ending_inside_a_frame_is_an_error",
+                        json!({"ends_inside_a_frame": inside, "reported_error": err}),
+                        format!("stream of {} frames ending after {i} bytes ({}): end-of-stream decoding returned {n} frames and {}; {complete} frames are complete", encs.len(), if inside { "inside a frame" } else { "at a frame boundary" }, if err { "an error" } else { "a clean end" }),
+                    ));
+                }
+            }
+        }
+    }
+    (bad, evals)
 }
 
 fn length_prefix_cases() -> Bad {
@@ -639,7 +770,13 @@ fn run(ctx: &Ctx, report: &mut Report) {
                     if !seen.insert(digest) {
                         continue;
                     }
-                    match catch(|| check_transcript(&frames, if ctx.quick() { 300 } else { 800 })) {
+                    match catch(|| {
+                        let (mut bad, mut evals, cuts) = check_transcript(&frames, if ctx.quick() { 300 } else { 800 });
+                        let (b2, e2) = check_framing(&frames);
+                        bad.extend(b2);
+                        evals += e2;
+                        (bad, evals, cuts)
+                    }) {
                         Err(p) => report.violation("no_panic", json!({"part": "A"}), case, format!("panic: {p}"), ordinal),
                         Ok((bad, evals, cuts)) => {
                             report.evaluations += evals;
@@ -772,7 +909,8 @@ fn replay(case: &Value) -> anyhow::Result<(bool, String)> {
         let a: Vec<Spec> = serde_json::from_value(t["a"].clone())?;
         let b: Vec<Spec> = serde_json::from_value(t["b"].clone())?;
         let frames = session_frames(&a, &b);
-        let (bad, _, _) = check_transcript(&frames, 800);
+        let (mut bad, _, _) = check_transcript(&frames, 800);
+        bad.extend(check_framing(&frames).0);
         let out: String = bad.iter().map(|(o, _, d)| format!("FAILED {o}: {d}\n")).collect();
         return Ok((!bad.is_empty(), format!("{} frames\n{out}", frames.len())));
     }
